@@ -23,7 +23,9 @@ def install(reg):
         I.path.event("pool.join", a[0])
         return NONE
 
-    reg.obj_props["Pool.map"] = lambda I, o, n: Fn(lambda I2, a, k, n2: NONE, "pool.map")
+    # multiprocessing.Pool: map / imap return results in the order of the inputs; imap_unordered / map_async(...) do not
+    for _nm in ("map", "imap", "imap_unordered", "starmap", "map_async", "apply_async"):
+        reg.obj_props[f"Pool.{_nm}"] = (lambda I, o, n, _n=_nm: Fn(lambda I2, a, k, n2: NONE, f"pool.{_n}"))
 
 
 class PoolHandlerExit(Contract):
@@ -71,6 +73,9 @@ class PoolHandlerExit(Contract):
             d = g["during"]
             ok = isinstance(d["ll"], Partial) and d["ll"].fn is g["L0"] and "map_fn" in d["ll"].kwargs
             p.prove(z3.BoolVal(ok), f"{q}:C19:inside the context the likelihood is the entry callable with the pool's map")
+            mf = d["ll"].kwargs.get("map_fn") if ok else None
+            p.prove(z3.BoolVal(getattr(mf, "name", "") in ("pool.map", "pool.imap")),
+                    f"{q}:C19:C10:the map handed to the likelihood returns results in the order of its inputs (pool.map), so per-row values stay with their rows")
             p.prove(z3.BoolVal((isinstance(d["lp"], Partial) and d["lp"].fn is g["P0"]) if sh["prior"] else d["lp"] is g["P0"]),
                     f"{q}:C19:the prior is overridden only when parallelize_prior is set")
         else:
